@@ -89,7 +89,7 @@ def run(ctx):
                'queries within 1e-12 relative of a table end: inside/outside is a don\'t-care; node queries are made in the table\'s own unit',
                'tables not covering V or not increasing are outside the quantifier')
     ctx.require_events('Extinction.get_av:post', 'pair:chi-scaling', 'pair:units', 'roundtrip:pickle', 'roundtrip:table',
-                       'roundtrip:file', 'at-V', 'history:chi-reassigned', 'history:table-replaced', 'history:wav-reassigned', 'query:scalar', 'V-on-node')
+                       'roundtrip:file', 'at-V', 'history:chi-reassigned', 'history:table-replaced', 'history:wav-reassigned', 'query:scalar', 'V-on-node', 'roundtrip:file-defaults')
     ctx.require_regimes('rows=2', 'rows>=100', 'query:outside', 'query:node', 'query:inside')
     n_tab = 150 if ctx.quick else 4000
     for it in range(n_tab):
@@ -164,7 +164,7 @@ def run(ctx):
         law2.chi = (chi_native * c) * cunit
         g2 = np.asarray(law2.get_av(q), float)
         ctx.event('pair:chi-scaling')
-        if np.any(np.abs(g2 - base) > 1e-12 * np.abs(base)):
+        if np.any(np.abs(g2 - base) > rel_tol(tw_um, chi_native, qs_um[:12], 1e-12) * np.abs(base)):
             ctx.violation('get_av:depends-on-opacity-scale', 'multiplying chi by a constant changed the pattern', dict(wit, c=c, before=base, after=g2))
         # a scalar (0-d) query, also in another unit than the table's
         for qn in ('um', 'nm', 'mm'):
@@ -200,7 +200,7 @@ def run(ctx):
         law_h.chi = (chi_native * c) * cunit
         gh = np.asarray(law_h.get_av(q), float)
         ctx.event('history:chi-reassigned')
-        if np.any(np.abs(gh - base) > 1e-12 * np.abs(base)):
+        if np.any(np.abs(gh - base) > rel_tol(tw_um, chi_native, qs_um[:12], 1e-12) * np.abs(base)):
             ctx.violation('get_av:stale-after-chi-reassigned', 're-assigning chi on an object that was already evaluated gives a pattern that is not that of the new table',
                           dict(wit, c=c, before=base, after=gh))
         # only the wavelengths re-assigned (same length): e.g. the table converted to another unit, or corrected wavelengths
@@ -279,12 +279,13 @@ def run(ctx):
         except Exception as exc:
             ctx.violation('roundtrip:file-raised', 'from_file raised: %r' % (exc,), dict(wit, columns=(cw, cc), ncol=ncol))
         os.remove(path)
-        if it % 25 == 0 and un == 'um' and cn == 'cm2/g':
-            # default arguments of the reader: columns (0,1), micron, cm^2/g
+        if it % 5 == 0:
+            # default arguments of the reader: columns (0,1), micron, cm^2/g (the table is written out in micron for this)
             with open(path, 'w') as f:
-                for a, b in zip(tv, chi_native):
+                for a, b in zip(tw_um, chi_native):
                     f.write('%r %r\n' % (float(a), float(b)))
             lf = Extinction.from_file(path)
+            ctx.event('roundtrip:file-defaults')
             if not np.all(np.abs(np.asarray(lf.get_av(q), float) - base) <= rel_tol(tw_um, chi_native, qs_um[:12]) * np.abs(base)):
                 ctx.violation('roundtrip:file-changes-law', 'law read with default reader arguments differs', wit)
             os.remove(path)
